@@ -274,6 +274,21 @@ func c04Exercise(text string, params map[string]interface{}, res *c04result, idx
 	}
 }
 
+// c04FailureTexts lists the texts a parse failure carries.
+func c04FailureTexts(err error) []string {
+	out := []string{err.Error()}
+	if pe, ok := err.(*influxql.ParseError); ok {
+		out = append(out, pe.Found, pe.Message, strings.TrimPrefix(pe.Found, "$"))
+	}
+	var res []string
+	for _, s := range out {
+		if s != "" {
+			res = append(res, s)
+		}
+	}
+	return res
+}
+
 // c04Case builds input number idx of a label.
 func c04Case(seed int64, label string, idx int) (string, map[string]interface{}) {
 	rg := mon.NewRng(seed, label, idx)
@@ -427,6 +442,33 @@ func c04Worker(args []string) int {
 			text, params := c04Case(seed, label, idx)
 			journal(label, idx)
 			c04Exercise(text, params, res, idx, label)
+			if label == "tmpl" && len(params) > 0 {
+				// the same template again with the map also binding, as names, the
+				// texts its failures carry (a failed placeholder's diagnostic must
+				// never be looked up as a name)
+				more := map[string]interface{}{}
+				for k, v := range params {
+					more[k] = v
+				}
+				p := influxql.NewParser(strings.NewReader(text))
+				p.SetParams(params)
+				var perr error
+				mon.Try(func() { _, perr = p.ParseQuery() })
+				if perr != nil {
+					vals := c04Vals()
+					for _, cnd := range c04FailureTexts(perr) {
+						if _, taken := more[cnd]; !taken {
+							more[cnd] = vals[(idx+len(cnd))%len(vals)]
+						}
+					}
+					for _, v := range params {
+						// and the diagnostics of every value that cannot be bound
+						more[fmt.Sprintf("unable to bind parameter with type %T", v)] = int64(1)
+					}
+					c04Exercise(text, more, res, idx, label)
+					res.Counters["inputs.tmpl-with-failure-texts-as-names"]++
+				}
+			}
 			res.Counters["inputs."+label]++
 			if params != nil {
 				res.Counters["inputs.with-params"]++
